@@ -1099,7 +1099,16 @@ class Patron(object):
                                      ])
                     if self.respondent.redirectable and self.respondent.redirectant:
                         self.redirects.append(copy.copy(response))
-                        self.redirect()
+                        try:
+                            self.redirect()
+                        except (ValueError, AttributeError, socket.error,
+                                httping.HTTPException) as ex:  # unusable location
+                            response['errored'] = True
+                            response['error'] = "Invalid redirect. {0}".format(ex)
+                            response['redirects'] = copy.copy(self.redirects)
+                            self.redirects = []
+                            self.responses.append(response)
+                            self.waited = False
                     else:
                         if self.redirects:
                             response['redirects'] = copy.copy(self.redirects)
